@@ -257,6 +257,9 @@ def hyp_run(rec, sub, strategy, check, max_examples, shrink=None, nsteps=None):
     from hypothesis import errors as herr
     if shrink is None:
         shrink = True
+    if rec.tier == "thorough":
+        # per-property depth of the thorough tier (THOROUGH_SCALE in the property module), and a global knob
+        max_examples = max(1, int(max_examples * getattr(rec, "scale", 1.0) * float(os.environ.get("VERIF_DEPTH", "1") or 1)))
     phases = [Phase.explicit, Phase.generate, Phase.target]
     if shrink:
         phases.append(Phase.shrink)
@@ -397,6 +400,7 @@ def shard_main(argv):
         from vf import build
         build.assert_shadow()
         mod = load_module(pid)
+        rec.scale = float(getattr(mod, "THOROUGH_SCALE", 1.0))
         mod.run_shard(rec)
         rec.flush()
     except BaseException:
